@@ -176,3 +176,37 @@ func verifC07IgnoreMessage() {
 	verifAssert(g.ConsumedSeq() == consumed, "ignoring a message does not move the consumed position")
 	verifReach("end")
 }
+
+// C07 / C06 (an acknowledgement that arrives after the log was given up): a family's flush calls the
+// acknowledgement callbacks of every leader it ever had - also of a leader whose log expired and
+// was stopped (partition.IsExpire -> stopReplicator -> StopConsumerGroup closes the group and unmaps
+// its meta page; writeAheadLog.destroy then removes the directory). The stale callback's Ack must not
+// store into the unmapped page (natively: SIGSEGV of the storage node at the acknowledgement step of
+// a flush), and it must not change what the group persisted.
+func verifC07StaleAck() {
+	verifInstallFS()
+	verifFaultOnClosedStore = true
+	defer func() { verifFaultOnClosedStore = false }()
+	log, err := queue.NewFanOutQueue(verifDir("wal"), 0)
+	if err != nil {
+		panic(err)
+	}
+	appended := int64(verifChoose("appended", 3)) // 0..2
+	verifFill(log, 0, appended+1, 'm')
+	g, _ := log.GetOrCreateConsumerGroup("1")
+	g.SetConsumedSeq(appended)
+	g.Ack(appended) // everything flushed and acknowledged
+	stop := verifChoose("howTheGroupEnded", 2)
+	if stop == 0 {
+		log.StopConsumerGroup("1") // the log expired: the replicator and its group were stopped
+	} else {
+		log.Close() // the whole log was closed (destroy)
+	}
+	// the family is flushed once more (another leader wrote to it, or it is closed at shutdown):
+	// the old callback acknowledges the sequence it already acknowledged, or a sequence below
+	ackArg := appended - int64(verifChoose("ackBelow", 2))
+	g.Ack(ackArg)
+	g.SetConsumedSeq(appended)
+	verifAssert(g.AcknowledgedSeq() == appended, "a stopped group's acknowledged position is what it was when it stopped")
+	verifReach("end")
+}
